@@ -348,3 +348,6 @@ _run_c03 = run
 def run(ctx):
     _run_c03(ctx)
     ctx.guard(r03_8)
+    # "equally through BrownianPath, BrownianTree and ReverseBrownian": a wrapper is a view of one underlying object
+    from . import c05
+    ctx.guard(c05.r05_7)
